@@ -619,13 +619,16 @@ def c19_plan(tier):
         for g in small2[::3]:
             for pol in pols:
                 add((2, 1, make_case(g, pol, "csc", 0, "void")))
-        # structured graphs, uint32 edge data, 2 threads per host
+        # structured graphs, uint32 edge data (three of them with 2 threads
+        # per host)
         for h in (2, 3):
             for g in struct:
+                t = 2 if (h == 2 and g.name in ("fan8", "clique4", "path5")) \
+                    else 1
                 for pol in pols:
-                    add((h, 2, make_case(g, pol, "csr", 0, "u32")))
+                    add((h, t, make_case(g, pol, "csr", 0, "u32")))
                 for pol in ("oec", "hivc", "cvc", "sugar-o"):
-                    add((h, 2, make_case(g, pol, "csc", 0, "u32")))
+                    add((h, 1, make_case(g, pol, "csc", 0, "u32")))
         # symmetric-graph shortcut, read balancing, synchronous assignment
         for g in struct:
             sg = g.symmetrised()
@@ -638,8 +641,9 @@ def c19_plan(tier):
                 add((3, 1, make_case(g, pol, "csr", 0, "u32", casync=0)))
         # 4 hosts (2x2 cartesian grid; fewer nodes than hosts) and 1 host
         for g in struct + tiny:
+            ed = "void" if g in tiny else "u32"
             for pol in pols:
-                add((4, 1, make_case(g, pol, "csr", 0, "u32")))
+                add((4, 1, make_case(g, pol, "csr", 0, ed)))
             for pol in ("oec", "iec", "hovc", "cvc", "ginger-o", "sugar-o"):
                 add((1, 1, make_case(g, pol, "csr", 0, "u32")))
             for pol in ("cvc", "sugar-o", "hivc"):
